@@ -121,6 +121,7 @@ def gen_plan(seed, tier="quick"):
         # an earlier extraction in the same process on another probe geometry with the same channel count
         "prelude": r.choice([None, None] + [f for f in ("NP1", "NP21", "NP24") if f != fixture]),
         # history: an earlier extraction on this .cbin died while decompressing into the shared scratch directory
+        "spike_dtype": r.choice(["int64", "int64", "uint64", "int32", "uint32"]),     # spike sorters save unsigned times
         "prelude_same_outdir": r.random() < 0.4,
         "explicit_h": r.random() < 0.3,
         "interrupted_first": r.choice([None, None, None, {"kind": r.choice(["kill", "torn", "io_error"]), "rseed": r.randrange(1 << 30)}]),
@@ -187,7 +188,10 @@ def _extract(plan, src, outdir, chunk, n_jobs, schedule, scratch):
         kw["h"] = {k: np.array(v) for k, v in sx.geometry.items()}
         sx.close()
     try:
-        wfx.extract_wfs_cbin(src, outdir, sp[:, 0], sp[:, 1], sp[:, 2], max_wf=plan["max_wf"], chunksize_samples=chunk,
+        sdt = np.dtype(plan.get("spike_dtype", "int64"))
+        cl = sp[:, 1] if (sdt.kind == "i" or sp[:, 1].min(initial=0) >= 0) else sp[:, 1] - sp[:, 1].min()
+        wfx.extract_wfs_cbin(src, outdir, sp[:, 0].astype(sdt), sp[:, 1], sp[:, 2].astype(np.int32 if sdt.itemsize == 4 else np.int64),
+                             max_wf=plan["max_wf"], chunksize_samples=chunk,
                              n_jobs=n_jobs, preprocess_steps=[], seed=plan["wf_seed"], scratch_dir=scratch, **kw)
     except Exception as e:
         import traceback
